@@ -17,6 +17,7 @@ import (
 	"sort"
 	"strconv"
 	"strings"
+	"syscall"
 	"time"
 
 	"github.com/dop251/goja"
@@ -270,6 +271,19 @@ func runOne(src string, obs map[string]int, obsSkip map[string]int, timeout time
 		return
 	}
 	// 5. the VM must be back at its entry state (interrupt included)
+	defer func() {
+		// 6. (only if nothing else is wrong) the returned error must be usable: Error() must not panic
+		if res.Violation == "" && rerr != nil {
+			func() {
+				defer func() {
+					if x := recover(); x != nil {
+						res.Violation, res.Detail = "error-method-panics", classifyPanic(x)
+					}
+				}()
+				_ = rerr.Error()
+			}()
+		}
+	}()
 	sp1, sb1, cs1, ts1, is1, rs1 := goja.VerifC01SP(vm)
 	if sp1 != sp0 || cs1 != cs0 || ts1 != ts0 || is1 != is0 || rs1 != rs0 || sb1 != -1 {
 		res.Violation = "vm-state-not-restored"
@@ -281,7 +295,7 @@ func runOne(src string, obs map[string]int, obsSkip map[string]int, timeout time
 
 func cmdRun(src string) string {
 	obs, skip := map[string]int{}, map[string]int{}
-	r := runOne(src, obs, skip, 500*time.Millisecond)
+	r := runOne(src, obs, skip, 2*time.Second)
 	type out struct {
 		Result
 		Units []string `json:"units"`
@@ -317,6 +331,7 @@ type Summary struct {
 	Violations []Violation    `json:"violations"`
 	ObsSkipped map[string]int `json:"obs_skipped"`
 	Seconds    float64        `json:"seconds"`
+	CPUSeconds float64        `json:"cpu_seconds"`
 	Samples    []string       `json:"samples"`
 }
 
@@ -348,9 +363,11 @@ func cmdSearch(args []string) string {
 	obs := map[string]int{}
 	seenUnit := map[string]bool{}
 	t0 := time.Now()
-	deadline := t0.Add(time.Duration(secs * float64(time.Second)))
+	// the budget is CPU time of this process (load tolerant); wall time only as a very generous safety net
+	cpu0 := cpuSeconds()
+	wallCap := t0.Add(time.Duration(secs*40*float64(time.Second)) + 5*time.Minute)
 	var lastValid string
-	for i := 0; i < count && time.Now().Before(deadline); i++ {
+	for i := 0; i < count && cpuSeconds()-cpu0 < secs && time.Now().Before(wallCap); i++ {
 		var src, class string
 		k := r.Intn(100)
 		switch {
@@ -395,7 +412,7 @@ func cmdSearch(args []string) string {
 		// remember the program being run: a fatal Go error (stack exhaustion, out of memory) kills the process
 		// without passing through recover, and the orchestrator then finds the culprit here
 		_ = os.WriteFile(prefix+".cur", []byte(src), 0o644)
-		res := runOne(src, obs, sum.ObsSkipped, 300*time.Millisecond)
+		res := runOne(src, obs, sum.ObsSkipped, time.Second)
 		if res.Violation != "" {
 			sum.Outcomes["VIOLATION:"+res.Violation]++
 			if len(sum.Violations) < 20 {
@@ -437,8 +454,17 @@ func cmdSearch(args []string) string {
 	ow.Flush()
 	of.Close()
 	sum.Seconds = time.Since(t0).Seconds()
+	sum.CPUSeconds = cpuSeconds() - cpu0
 	b, _ := json.Marshal(sum)
 	return string(b)
+}
+
+func cpuSeconds() float64 {
+	var ru syscall.Rusage
+	if err := syscall.Getrusage(syscall.RUSAGE_SELF, &ru); err != nil {
+		return 0
+	}
+	return float64(ru.Utime.Sec+ru.Stime.Sec) + float64(ru.Utime.Usec+ru.Stime.Usec)/1e6
 }
 
 func unhex(s string) string {
